@@ -14,5 +14,7 @@ def run(ctx):
     go_chain(ctx, want=('go.chain',))        # the limiter is in the chain whenever --take is given (T = 0 included)
     from ..scen_files import files, file_sources
     files(ctx); file_sources(ctx)      # a file argument is streamed through the same reader (a pipe given as a file is unbounded input too)
+    stage_steps(ctx, want=('frame', 'contract'))      # a stage decides from the row it is given (a remembered verdict can starve the limiter)
+    read_input(ctx, ['read.process_err_propagates', 'read.write_err_propagates'])      # a failing output ends the run instead of being skipped like a malformed value
     from ..conform import conformance
     conformance(ctx, ['take'])      # the references the obligations are stated against, compared with jawk::go on concrete runs (validates the oracles; never decides)
